@@ -279,6 +279,13 @@ class timemodel(_coreiterative):
         # find first time to save if exists
         while (isave < nsave) and (self.Qn.time > tsave[isave]):
             isave += 1
+        # nothing to integrate (stop criterion already met): a requested save time equal to the current time is the current state
+        if checkend:
+            while (isave < nsave) and (self.Qn.time >= tsave[isave]):
+                Qnn = self.Qn.copy()
+                Qnn.it = self._itstart + self._nit
+                results.append(Qnn)
+                isave += 1
         # MAIN LOOP
         while not checkend:
             dtloc = self.modeldisc.calc_timestep(self.Qn, condition)
